@@ -121,36 +121,64 @@ template <class T> struct dprec {
 struct cfg { std::string method, side = "right"; int M = 30, L = 2, s = 4, K = 3; double damping = 1.0; };
 struct result { bool ok = true; std::string exc; size_t it = 0; double rep = 0; bool finite = true; };
 
-template <class T, class Solver, class Prm>
-result call(const problem<T> &pb, const Prm &prm, std::vector<T> &x) {
-    result r;
-    typedef amgcl::backend::builtin<T> B;
-    try {
-        int n = pb.n;
-        amgcl::backend::crs<T> A(std::tie(n, pb.ptr, pb.col, pb.val));
-        dprec<T> P{pb.n, &pb.Pd, pb.identityP};
-        Solver S(pb.n, prm);
-        x = pb.x0d;
-        std::tie(r.it, r.rep) = S(A, P, pb.fd, x);
-        for (auto &v : x) if (!std::isfinite(std::abs(v))) r.finite = false;
-        if (!std::isfinite(r.rep)) r.finite = false;
-    } catch (const std::exception &e) { r.ok = false; r.exc = e.what(); }
-    return r;
+// One solver OBJECT, used for any number of solves: maxiter / tol are changed through the public
+// member `prm` between calls, the right-hand side and the initial guess are arguments of the call.
+template <class T> using solve_fn = std::function<result(int maxiter, double tol, const std::vector<T> &f, const std::vector<T> &x0, std::vector<T> &x)>;
+
+template <class T, class Solver, class Prm, class Body>
+void with_object(const problem<T> &pb, const Prm &prm, Body &&body) {
+    int n = pb.n;
+    amgcl::backend::crs<T> A(std::tie(n, pb.ptr, pb.col, pb.val));
+    dprec<T> P{pb.n, &pb.Pd, pb.identityP};
+    std::shared_ptr<Solver> S;
+    std::string ctor_exc;
+    try { S = std::make_shared<Solver>(pb.n, prm); } catch (const std::exception &e) { ctor_exc = e.what(); }
+    solve_fn<T> solve = [&](int maxiter, double tol, const std::vector<T> &f, const std::vector<T> &x0, std::vector<T> &x) {
+        result r;
+        if (!S) { r.ok = false; r.exc = ctor_exc; return r; }
+        try {
+            S->prm.maxiter = maxiter; S->prm.tol = tol;
+            x = x0;
+            std::tie(r.it, r.rep) = (*S)(A, P, f, x);
+            for (auto &v : x) if (!std::isfinite(std::abs(v))) r.finite = false;
+            if (!std::isfinite(r.rep)) r.finite = false;
+        } catch (const std::exception &e) { r.ok = false; r.exc = e.what(); }
+        return r;
+    };
+    body(solve);
 }
 namespace side = amgcl::preconditioner::side;
-template <class T>
-result run_real(const problem<T> &pb, const cfg &c, int maxiter, double tol, std::vector<T> &x) {
+template <class T, class Body>
+void with_solver(const problem<T> &pb, const cfg &c, Body &&body) {
     typedef amgcl::backend::builtin<T> B;
     side::type ps = c.side == "left" ? side::left : side::right;
-    if (c.method == "cg") { typename amgcl::solver::cg<B>::params p; p.maxiter = maxiter; p.tol = tol; return call<T, amgcl::solver::cg<B>>(pb, p, x); }
-    if (c.method == "bicgstab") { typename amgcl::solver::bicgstab<B>::params p; p.maxiter = maxiter; p.tol = tol; p.pside = ps; return call<T, amgcl::solver::bicgstab<B>>(pb, p, x); }
-    if (c.method == "bicgstabl") { typename amgcl::solver::bicgstabl<B>::params p; p.maxiter = maxiter; p.tol = tol; p.pside = ps; p.L = c.L; return call<T, amgcl::solver::bicgstabl<B>>(pb, p, x); }
-    if (c.method == "gmres") { typename amgcl::solver::gmres<B>::params p; p.maxiter = maxiter; p.tol = tol; p.pside = ps; p.M = c.M; return call<T, amgcl::solver::gmres<B>>(pb, p, x); }
-    if (c.method == "fgmres") { typename amgcl::solver::fgmres<B>::params p; p.maxiter = maxiter; p.tol = tol; p.M = c.M; return call<T, amgcl::solver::fgmres<B>>(pb, p, x); }
-    if (c.method == "lgmres") { typename amgcl::solver::lgmres<B>::params p; p.maxiter = maxiter; p.tol = tol; p.pside = ps; p.M = c.M; p.K = c.K; return call<T, amgcl::solver::lgmres<B>>(pb, p, x); }
-    if (c.method == "idrs") { typename amgcl::solver::idrs<B>::params p; p.maxiter = maxiter; p.tol = tol; p.s = c.s; return call<T, amgcl::solver::idrs<B>>(pb, p, x); }
-    if (c.method == "richardson") { typename amgcl::solver::richardson<B>::params p; p.maxiter = maxiter; p.tol = tol; p.damping = c.damping; return call<T, amgcl::solver::richardson<B>>(pb, p, x); }
-    result r; r.ok = false; r.exc = "unknown method"; return r;
+    if (c.method == "cg") { typename amgcl::solver::cg<B>::params p; with_object<T, amgcl::solver::cg<B>>(pb, p, body); }
+    else if (c.method == "bicgstab") { typename amgcl::solver::bicgstab<B>::params p; p.pside = ps; with_object<T, amgcl::solver::bicgstab<B>>(pb, p, body); }
+    else if (c.method == "bicgstabl") { typename amgcl::solver::bicgstabl<B>::params p; p.pside = ps; p.L = c.L; with_object<T, amgcl::solver::bicgstabl<B>>(pb, p, body); }
+    else if (c.method == "gmres") { typename amgcl::solver::gmres<B>::params p; p.pside = ps; p.M = c.M; with_object<T, amgcl::solver::gmres<B>>(pb, p, body); }
+    else if (c.method == "fgmres") { typename amgcl::solver::fgmres<B>::params p; p.M = c.M; with_object<T, amgcl::solver::fgmres<B>>(pb, p, body); }
+    else if (c.method == "lgmres") { typename amgcl::solver::lgmres<B>::params p; p.pside = ps; p.M = c.M; p.K = c.K; with_object<T, amgcl::solver::lgmres<B>>(pb, p, body); }
+    else if (c.method == "idrs") { typename amgcl::solver::idrs<B>::params p; p.s = c.s; with_object<T, amgcl::solver::idrs<B>>(pb, p, body); }
+    else if (c.method == "richardson") { typename amgcl::solver::richardson<B>::params p; p.damping = c.damping; with_object<T, amgcl::solver::richardson<B>>(pb, p, body); }
+    else { solve_fn<T> bad = [](int, double, const std::vector<T> &, const std::vector<T> &, std::vector<T> &) { result r; r.ok = false; r.exc = "unknown method"; return r; }; body(bad); }
+}
+// a fresh object for one solve of the problem's own system
+template <class T>
+result run_real(const problem<T> &pb, const cfg &c, int maxiter, double tol, std::vector<T> &x) {
+    result r;
+    with_solver(pb, c, [&](solve_fn<T> &solve) { r = solve(maxiter, tol, pb.fd, pb.x0d, x); });
+    return r;
+}
+// a second right-hand side / initial guess for the same matrix (object-reuse runs)
+template <class T> void second_system(const problem<T> &pb, std::vector<typename wide<T>::type> &f2, std::vector<typename wide<T>::type> &x2,
+                                      std::vector<T> &f2d, std::vector<T> &x2d) {
+    typedef typename wide<T>::type W;
+    int n = pb.n; f2.resize(n); x2.resize(n); f2d.resize(n); x2d.resize(n);
+    for (int i = 0; i < n; ++i) {
+        f2d[i] = narrow(pb.f[n - 1 - i] * W(0.5L) + W(0.25L + 0.125L * (i % 3)));
+        x2d[i] = narrow(W(0.5L) - pb.x0[i] * W(0.75L));
+        f2[i] = W(f2d[i]); x2[i] = W(x2d[i]);
+    }
 }
 
 // ------------------------------------------------------------------ reference implementations (textbook)
@@ -256,9 +284,19 @@ template <class W> bool is_complex() { return false; }
 template <> bool is_complex<std::complex<ld>>() { return true; }
 
 // A = D + E: |E_ij| <= off / n, diagonal in [2, 4] (+ imaginary part for general complex)
-template <class T> problem<T> make_problem(vr::rng &g, int n, bool sym, int pkind /*0 identity 1 spd 2 general*/, ld off = 1.0L) {
+template <class W> W unit_phase(vr::rng &g);
+template <> ld unit_phase<ld>(vr::rng &g) { return g.coin() ? 1.0L : -1.0L; }
+template <> std::complex<ld> unit_phase<std::complex<ld>>(vr::rng &g) { return std::polar((ld)1.0, (ld)(6.283185307179586L * g.unit())); }
+// shape 1 ("shift"): close to a cyclic shift with unit-modulus entries (random phases / signs), a small
+// diagonal 0.3 * phase and noise 0.04: cond ~ 2..3, far from diagonal dominance; the Arnoldi Hessenberg
+// matrix then has |h(j+1,j)| > |h(j,j)| with an arbitrary phase / sign of h(j,j)
+template <class T> problem<T> make_problem(vr::rng &g, int n, bool sym, int pkind /*0 identity 1 spd 2 general*/, ld off = 1.0L, int shape = 0) {
     typedef typename wide<T>::type W;
     problem<T> pb; pb.n = n; pb.A = dmat<W>(n); pb.P = dmat<W>(n); pb.identityP = pkind == 0;
+    if (shape == 1) {
+        for (int i = 0; i < n; ++i) for (int j = 0; j < n; ++j) pb.A(i, j) = rnd<W>(g) * W(0.04L);
+        for (int i = 0; i < n; ++i) { pb.A((i + 1) % n, i) += unit_phase<W>(g); pb.A(i, i) += unit_phase<W>(g) * W(0.3L); }
+    } else
     for (int i = 0; i < n; ++i) for (int j = (sym ? i : 0); j < n; ++j) {
         W e = rnd<W>(g) * W(off / n);
         if (i == j) { ld d = 2 + 2 * g.unit(); e = sym ? W(d) : W(d) + (is_complex<W>() ? rnd<W>(g) * W(0.5L) - W(rnd<ld>(g) * 0.5L) : W(0)); }
@@ -307,6 +345,33 @@ void compare_with_reference(const problem<T> &pb, const cfg &c, int K, const cha
     }
     o.ints("err", errs).ints("it", its).i("nref", (long)R.size()).i("nexc", nexc).i("nnan", nnan);
     if (nexc) o.str("exc", exc);
+    // the same comparison with ONE solver object for all k and for two systems in turn: system 1 = the
+    // one above, system 2 = another right-hand side and initial guess (its own reference run)
+    std::vector<W> f2, x2; std::vector<T> f2d, x2d; second_system(pb, f2, x2, f2d, x2d);
+    iterates<W> R2;
+    if (c.method == "cg") R2 = ref_cg(pb.A, pb.P, f2, x2, K);
+    else if (c.method == "bicgstab" || c.method == "bicgstabl") R2 = ref_bicgstab(pb.A, pb.P, f2, x2, K, left);
+    else if (c.method == "gmres") R2 = ref_gmres(pb.A, pb.P, f2, x2, K, c.M, left);
+    else if (c.method == "fgmres") R2 = ref_gmres(pb.A, pb.P, f2, x2, K, c.M, false);
+    else if (c.method == "lgmres") R2 = ref_gmres(pb.A, pb.P, f2, x2, K, c.M + c.K, left);
+    else if (c.method == "richardson") R2 = ref_richardson(pb.A, pb.P, f2, x2, K, (ld)c.damping);
+    ld xs2 = nrm(dense_solve(pb.A, f2));
+    std::vector<long> errA, errB; int rexc = 0, rnan = 0;
+    with_solver(pb, c, [&](solve_fn<T> &solve) {
+        int kk = std::min(R.size(), R2.size());
+        for (int k = 1; k <= kk; ++k) {
+            std::vector<T> x;
+            result r = solve(k, 0.0, pb.fd, pb.x0d, x);
+            if (!r.ok) { ++rexc; break; } if (!r.finite) { ++rnan; break; }
+            std::vector<W> d(pb.n); for (int i = 0; i < pb.n; ++i) d[i] = W(x[i]) - R[k - 1][i];
+            errA.push_back(md(nrm(d) / xs));
+            r = solve(k, 0.0, f2d, x2d, x);
+            if (!r.ok) { ++rexc; break; } if (!r.finite) { ++rnan; break; }
+            for (int i = 0; i < pb.n; ++i) d[i] = W(x[i]) - R2[k - 1][i];
+            errB.push_back(md(nrm(d) / xs2));
+        }
+    });
+    o.ints("errA", errA).ints("errB", errB).i("nref2", (long)std::min(R.size(), R2.size())).i("rexc", rexc).i("rnan", rnan);
     vr::emit(o.done());
 }
 
@@ -337,6 +402,18 @@ template <class T> void mode_ref_type(vr::rng &g, const char *vt, int reps) {
                 compare_with_reference(pb, c, k, vt, kind, ++g_id);
             }
         }
+    }
+    // shift-like systems (far from diagonal dominance): the minimal-residual family, whose Givens
+    // rotations then take the |h(j+1,j)| > |h(j,j)| branch with arbitrary phase / sign
+    for (int rep = 0; rep < reps; ++rep) for (int n : {6, 12, 20, 33}) for (int pk = 0; pk < 3; pk += 2) {
+        problem<T> pb = make_problem<T>(g, n, false, pk, 1.0L, 1);
+        int K = std::min(n, 14);
+        std::vector<cfg> cs;
+        static const int MS[4] = {1, 2, 4, 30};
+        for (int mi = 0; mi < 4; ++mi) for (int sd = 0; sd < 2; ++sd) { cfg c; c.method = "gmres"; c.side = sd ? "left" : "right"; c.M = MS[mi]; cs.push_back(c); }
+        for (int mi = 0; mi < 4; ++mi) { cfg c; c.method = "fgmres"; c.M = MS[mi]; cs.push_back(c); }
+        for (int sd = 0; sd < 2; ++sd) { cfg c; c.method = "lgmres"; c.side = sd ? "left" : "right"; c.M = g.range(2, 6); c.K = g.range(0, 3); cs.push_back(c); }
+        for (auto &c : cs) compare_with_reference(pb, c, c.method == "lgmres" ? std::min(K, c.M + c.K) : K, vt, "shift", ++g_id);
     }
 }
 
@@ -411,11 +488,16 @@ template <class T> void prop_minres(const problem<T> &pb, const cfg &c, const ch
     vr::emit(o.done());
 }
 // termination within n (+ n/s) iterations; exact preconditioner: one iteration
-template <class T> void prop_termination(const problem<T> &pb, const cfg &c, const char *vt, const char *pk, long id, int budget, bool sym) {
+template <class T> void prop_termination(const problem<T> &pb, const cfg &c, const char *vt, const char *pk, long id, int budget, bool sym, bool reuse = false) {
     typedef typename wide<T>::type W;
-    std::vector<T> x; result r = run_real(pb, c, budget, 1e-12, x);
+    std::vector<T> x; result r;
+    if (!reuse) r = run_real(pb, c, budget, 1e-12, x);
+    else {   // the object has solved another system (other right-hand side and guess, smaller budget) before
+        std::vector<W> f2, x2; std::vector<T> f2d, x2d; second_system(pb, f2, x2, f2d, x2d);
+        with_solver(pb, c, [&](solve_fn<T> &solve) { std::vector<T> y; solve(std::max(1, budget / 2), 1e-12, f2d, x2d, y); r = solve(budget, 1e-12, pb.fd, pb.x0d, x); });
+    }
     vr::obj o; o.str("k", "term").str("method", c.method).str("side", c.side).str("vt", vt).str("prec", pk).i("id", id).i("n", pb.n)
-        .i("L", c.L).i("s", c.s).i("M", c.M).i("budget", budget).i("sym", sym).i("cond", md(cond2(pb.A)));
+        .i("L", c.L).i("s", c.s).i("M", c.M).i("budget", budget).i("sym", sym).i("reuse", reuse).i("cond", md(cond2(pb.A)));
     if (!r.ok) { o.str("exc", r.exc); vr::emit(o.done()); return; }
     o.i("it", (long)r.it).i("nan", !r.finite);
     if (r.finite) {
@@ -430,6 +512,13 @@ template <class T> void mode_prop_type(vr::rng &g, const char *vt, int reps) {
         for (int n : {5, 9, 16, 30}) for (int pk = 0; pk < 2; ++pk) { problem<T> pb = make_problem<T>(g, n, true, pk); prop_cg(pb, vt, ++g_id); }
         for (int n : {5, 9, 16, 30}) for (int sym = 0; sym < 2; ++sym) for (int pk = 0; pk < 3; pk += (sym ? 1 : 2)) {
             problem<T> pb = make_problem<T>(g, n, sym, pk);
+            for (int sd = 0; sd < 2; ++sd) { cfg c; c.method = "gmres"; c.side = sd ? "left" : "right"; c.M = 30; prop_minres(pb, c, vt, ++g_id); }
+            { cfg c; c.method = "fgmres"; c.M = 30; prop_minres(pb, c, vt, ++g_id); }
+            for (int sd = 0; sd < 2; ++sd) { cfg c; c.method = "lgmres"; c.side = sd ? "left" : "right"; c.M = g.range(3, 9); c.K = g.range(1, 3); prop_minres(pb, c, vt, ++g_id); }
+        }
+        // shift-like systems: residual optimality of the minimal-residual family, termination of all methods
+        for (int n : {5, 9, 16}) for (int pk = 0; pk < 3; pk += 2) {
+            problem<T> pb = make_problem<T>(g, n, false, pk, 1.0L, 1);
             for (int sd = 0; sd < 2; ++sd) { cfg c; c.method = "gmres"; c.side = sd ? "left" : "right"; c.M = 30; prop_minres(pb, c, vt, ++g_id); }
             { cfg c; c.method = "fgmres"; c.M = 30; prop_minres(pb, c, vt, ++g_id); }
             for (int sd = 0; sd < 2; ++sd) { cfg c; c.method = "lgmres"; c.side = sd ? "left" : "right"; c.M = g.range(3, 9); c.K = g.range(1, 3); prop_minres(pb, c, vt, ++g_id); }
@@ -451,6 +540,7 @@ template <class T> void mode_prop_type(vr::rng &g, const char *vt, int reps) {
                 if (c.method == "idrs") budget = n + (n + c.s - 1) / c.s;
                 if (c.method == "bicgstabl") budget = ((n + c.L - 1) / c.L) * c.L;
                 prop_termination(pb, c, vt, "identity", ++g_id, budget, sym);
+                prop_termination(pb, c, vt, "identity", ++g_id, budget, sym, /*reuse=*/true);
                 int b1 = c.method == "bicgstabl" ? c.L : c.method == "idrs" ? 2 : 1;
                 prop_termination(pe, c, vt, "exact", ++g_id, b1, sym);
             }
